@@ -61,13 +61,13 @@ pub proof fn lemma_mod_neg_zero(x: int, b: int)
 pub open spec fn tick_usable(t: int, spacing: int) -> bool { -443636 <= t <= 443636 && spacing > 0 && t % spacing == 0 }
 
 impl Tick {
-//@ fn state/tick.rs update in=/^impl Tick \{/
+//@ fn state/tick.rs update in=/^impl Tick \{/ tags=C05,C07,C11,C12,C13,C01
     ensures final(self).as_update() == *update,
 //@ end
-//@ fn state/tick.rs check_is_out_of_bounds in=/^impl Tick \{/ -> r
+//@ fn state/tick.rs check_is_out_of_bounds in=/^impl Tick \{/ -> r tags=C18,C10,C12
     ensures r == !(-443636 <= tick_index <= 443636),
 //@ end
-//@ fn state/tick.rs check_is_usable_tick in=/^impl Tick \{/ -> r
+//@ fn state/tick.rs check_is_usable_tick in=/^impl Tick \{/ -> r tags=C18,C10,C12
     requires tick_spacing > 0,
     ensures r == tick_usable(tick_index as int, tick_spacing as int),
 //@ inject at /^\{/
@@ -75,7 +75,7 @@ impl Tick {
         vstd::arithmetic::div_mod::lemma_fundamental_div_mod(tick_index as int, tick_spacing as int);
         vstd::arithmetic::div_mod::lemma_fundamental_div_mod(-(tick_index as int), tick_spacing as int); }
 //@ end
-//@ fn state/tick.rs full_range_indexes in=/^impl Tick \{/ -> r
+//@ fn state/tick.rs full_range_indexes in=/^impl Tick \{/ -> r tags=C18,C12
     requires tick_spacing > 0,
     ensures r.0 as int == -((443636int / tick_spacing as int) * tick_spacing as int), r.1 as int == (443636int / tick_spacing as int) * tick_spacing as int,
         -443636 <= r.0 <= 0 <= r.1 <= 443636,
@@ -96,17 +96,17 @@ impl vstd::std_specs::convert::FromSpecImpl<Tick> for TickUpdate {
     open spec fn from_spec(v: Tick) -> Self { v.as_update() }
 }
 impl From<Tick> for TickUpdate {
-//@ fn state/tick.rs from in=/^impl From<Tick> for TickUpdate/ -> r
+//@ fn state/tick.rs from in=/^impl From<Tick> for TickUpdate/ -> r tags=C05,C07,C11,C12
     ensures r == tick.as_update(),
 //@ end
 }
 
 impl WhirlpoolRewardInfo {
     pub open spec fn is_init(&self) -> bool { self.mint != pk_default() }
-//@ fn state/whirlpool.rs initialized in=/^impl WhirlpoolRewardInfo \{/ -> r
+//@ fn state/whirlpool.rs initialized in=/^impl WhirlpoolRewardInfo \{/ -> r tags=C11,C12,C19
     ensures r == self.is_init(),
 //@ end
-//@ fn state/whirlpool.rs to_reward_growths in=/^impl WhirlpoolRewardInfo \{/ -> r
+//@ fn state/whirlpool.rs to_reward_growths in=/^impl WhirlpoolRewardInfo \{/ -> r tags=C11,C12
     ensures forall|k: int| 0 <= k < 3 ==> r[k] == reward_infos[k].growth_global_x64,
 //@ loop 0
         invariant forall|k: int| 0 <= k < i ==> reward_growths[k] == reward_infos[k].growth_global_x64,
@@ -114,7 +114,7 @@ impl WhirlpoolRewardInfo {
 }
 
 impl Whirlpool {
-//@ fn state/whirlpool.rs update_after_swap in=/^impl Whirlpool \{/
+//@ fn state/whirlpool.rs update_after_swap in=/^impl Whirlpool \{/ tags=C06,C03,C01
     requires
         is_token_fee_in_a ==> old(self).protocol_fee_owed_a as int + protocol_fee as int <= U64MAX(),
         !is_token_fee_in_a ==> old(self).protocol_fee_owed_b as int + protocol_fee as int <= U64MAX(),
@@ -132,24 +132,24 @@ impl Whirlpool {
         final(self).token_mint_a == old(self).token_mint_a, final(self).token_mint_b == old(self).token_mint_b,
         final(self).token_vault_a == old(self).token_vault_a, final(self).token_vault_b == old(self).token_vault_b,
 //@ end
-//@ fn state/whirlpool.rs reset_protocol_fees_owed in=/^impl Whirlpool \{/
+//@ fn state/whirlpool.rs reset_protocol_fees_owed in=/^impl Whirlpool \{/ tags=C06,C01
     ensures final(self).protocol_fee_owed_a == 0, final(self).protocol_fee_owed_b == 0,
         *final(self) == (Whirlpool { protocol_fee_owed_a: 0, protocol_fee_owed_b: 0, ..*old(self) }),
 //@ end
-//@ fn state/whirlpool.rs update_fee_rate in=/^impl Whirlpool \{/ -> r
+//@ fn state/whirlpool.rs update_fee_rate in=/^impl Whirlpool \{/ -> r tags=C19
     ensures
         fee_rate > 60_000 ==> r == err::<()>(ErrorCode::FeeRateMaxExceeded) && *final(self) == *old(self),
         fee_rate <= 60_000 ==> r is Ok && *final(self) == (Whirlpool { fee_rate: fee_rate, ..*old(self) }),
 //@ end
-//@ fn state/whirlpool.rs update_protocol_fee_rate in=/^impl Whirlpool \{/ -> r
+//@ fn state/whirlpool.rs update_protocol_fee_rate in=/^impl Whirlpool \{/ -> r tags=C19
     ensures
         protocol_fee_rate > 2_500 ==> r == err::<()>(ErrorCode::ProtocolFeeRateMaxExceeded) && *final(self) == *old(self),
         protocol_fee_rate <= 2_500 ==> r is Ok && *final(self) == (Whirlpool { protocol_fee_rate: protocol_fee_rate, ..*old(self) }),
 //@ end
-//@ fn state/whirlpool.rs update_rewards in=/^impl Whirlpool \{/
+//@ fn state/whirlpool.rs update_rewards in=/^impl Whirlpool \{/ tags=C11,C01
     ensures *final(self) == (Whirlpool { reward_infos: reward_infos, reward_last_updated_timestamp: reward_last_updated_timestamp, ..*old(self) }),
 //@ end
-//@ fn state/whirlpool.rs update_rewards_and_liquidity in=/^impl Whirlpool \{/
+//@ fn state/whirlpool.rs update_rewards_and_liquidity in=/^impl Whirlpool \{/ tags=C11,C05,C12,C01
     ensures *final(self) == (Whirlpool { reward_infos: reward_infos, reward_last_updated_timestamp: reward_last_updated_timestamp, liquidity: liquidity, ..*old(self) }),
 //@ end
 }
@@ -159,12 +159,12 @@ impl Position {
         self.liquidity == 0 && self.fee_owed_a == 0 && self.fee_owed_b == 0
         && self.reward_infos[0].amount_owed == 0 && self.reward_infos[1].amount_owed == 0 && self.reward_infos[2].amount_owed == 0
     }
-//@ fn state/position.rs is_position_empty in=/^impl Position \{/ -> r
+//@ fn state/position.rs is_position_empty in=/^impl Position \{/ -> r tags=C18,C12
     ensures r == position.empty(),
 //@ loop 0
         invariant rewards_not_owed == (forall|k: int| 0 <= k < i ==> position.reward_infos[k].amount_owed == 0),
 //@ end
-//@ fn state/position.rs update in=/^impl Position \{/
+//@ fn state/position.rs update in=/^impl Position \{/ tags=C05,C07,C11,C12,C01
     ensures
         final(self).liquidity == update.liquidity,
         final(self).fee_growth_checkpoint_a == update.fee_growth_checkpoint_a, final(self).fee_growth_checkpoint_b == update.fee_growth_checkpoint_b,
@@ -172,7 +172,7 @@ impl Position {
         final(self).whirlpool == old(self).whirlpool, final(self).position_mint == old(self).position_mint,
         final(self).tick_lower_index == old(self).tick_lower_index, final(self).tick_upper_index == old(self).tick_upper_index,
 //@ end
-//@ fn state/position.rs reset_fees_owed in=/^impl Position \{/
+//@ fn state/position.rs reset_fees_owed in=/^impl Position \{/ tags=C07,C01
     ensures *final(self) == (Position { fee_owed_a: 0, fee_owed_b: 0, ..*old(self) }),
 //@ end
 }
